@@ -1621,7 +1621,7 @@ func (node *ShowFilter) Format(buf *TrackedBuffer) {
 	if node == nil {
 		return
 	}
-	if node.Like != "" {
+	if node.Filter == nil {
 		buf.Myprintf(" like '%s'", node.Like)
 	} else {
 		buf.Myprintf(" where %v", node.Filter)
@@ -2798,7 +2798,7 @@ func NewValArg(in []byte) *SQLVal {
 func (node *SQLVal) Format(buf *TrackedBuffer) {
 	switch node.Type {
 	case StrVal:
-		sqltypes.MakeTrusted(sqltypes.VarBinary, node.Val).EncodeSQL(buf)
+		writeStringLiteral(buf, node.Val)
 	case IntVal, FloatVal, HexNum:
 		buf.Myprintf("%s", []byte(node.Val))
 	case HexVal:
@@ -2819,6 +2819,49 @@ func (node *SQLVal) walkSubtree(visit Visit) error {
 func (node *SQLVal) replace(from, to Expr) bool {
 	return false
 }
+
+// writeStringLiteral escapes exactly what Tokenizer.scanString undoes: \' \\ and \n.
+func writeStringLiteral(buf *TrackedBuffer, val []byte) {
+	buf.WriteByte('\'')
+	for _, c := range val {
+		switch c {
+		case '\'':
+			buf.WriteString(`\'`)
+		case '\\':
+			buf.WriteString(`\\`)
+		case '\n':
+			buf.WriteString(`\n`)
+		default:
+			buf.WriteByte(c)
+		}
+	}
+	buf.WriteByte('\'')
+}
+
+// formatBareWord prints a name that is conventionally not back-quoted (function and type names)
+// as it is, unless it contains characters that only a quoted name can hold.
+func formatBareWord(buf *TrackedBuffer, name string) {
+	for i, c := range name {
+		if !isLetter(uint16(c)) && (i == 0 || !isDigit(uint16(c))) {
+			formatID(buf, name, "") // a character outside the bare alphabet makes formatID back-quote
+			return
+		}
+	}
+	buf.WriteString(name)
+}
+
+// charsetName prints a charset (grammar: ID | STRING) so that it reads back as the same text.
+type charsetName string
+
+func (c charsetName) Format(buf *TrackedBuffer) {
+	if c == "" {
+		buf.WriteString("''")
+		return
+	}
+	formatID(buf, string(c), strings.ToLower(string(c)))
+}
+
+func (c charsetName) walkSubtree(visit Visit) error { return nil }
 
 // HexDecode decodes the hexval into bytes.
 func (node *SQLVal) HexDecode() ([]byte, error) {
@@ -3001,6 +3044,10 @@ type ListArg []byte
 
 // Format formats the node.
 func (node ListArg) Format(buf *TrackedBuffer) {
+	if len(node) == 0 {
+		buf.WriteString("::") // the tokenizer's LIST_ARG for a bare "::" carries no name
+		return
+	}
 	buf.WriteArg(string(node))
 }
 
@@ -3106,7 +3153,7 @@ type IntervalExpr struct {
 
 // Format formats the node.
 func (node *IntervalExpr) Format(buf *TrackedBuffer) {
-	buf.Myprintf("interval %v %s", node.Expr, node.Unit)
+	buf.Myprintf("interval %v %v", node.Expr, NewColIdent(node.Unit))
 }
 
 func (node *IntervalExpr) walkSubtree(visit Visit) error {
@@ -3191,7 +3238,7 @@ type CollateExpr struct {
 
 // Format formats the node.
 func (node *CollateExpr) Format(buf *TrackedBuffer) {
-	buf.Myprintf("%v collate %s", node.Expr, node.Charset)
+	buf.Myprintf("%v collate %v", node.Expr, charsetName(node.Charset))
 }
 
 func (node *CollateExpr) walkSubtree(visit Visit) error {
@@ -3226,9 +3273,10 @@ func (node *FuncExpr) Format(buf *TrackedBuffer) {
 		buf.Myprintf("%v.", node.Qualifier)
 	}
 	// Function names should not be back-quoted even
-	// if they match a reserved word. So, print the
-	// name as is.
-	buf.Myprintf("%s(%s%v)", node.Name.String(), distinct, node.Exprs)
+	// if they match a reserved word. They are back-quoted
+	// when they contain characters that cannot be in a bare name.
+	formatBareWord(buf, node.Name.String())
+	buf.Myprintf("(%s%v)", distinct, node.Exprs)
 }
 
 func (node *FuncExpr) walkSubtree(visit Visit) error {
@@ -3291,6 +3339,14 @@ type GroupConcatExpr struct {
 
 // Format formats the node
 func (node *GroupConcatExpr) Format(buf *TrackedBuffer) {
+	const pre = " separator '"
+	if sep := node.Separator; strings.HasPrefix(sep, pre) && strings.HasSuffix(sep, "'") && len(sep) > len(pre) {
+		// the grammar stores the separator pre-formatted around the raw text
+		buf.Myprintf("group_concat(%s%v%v separator ", node.Distinct, node.Exprs, node.OrderBy)
+		writeStringLiteral(buf, []byte(sep[len(pre):len(sep)-1]))
+		buf.WriteString(")")
+		return
+	}
 	buf.Myprintf("group_concat(%s%v%v%s)", node.Distinct, node.Exprs, node.OrderBy, node.Separator)
 }
 
@@ -3369,9 +3425,9 @@ func (node *SubstrExpr) Format(buf *TrackedBuffer) {
 	}
 
 	if node.To == nil {
-		buf.Myprintf("substr(%v, %v)", val, node.From)
+		buf.Myprintf("substr(%v from %v)", val, node.From)
 	} else {
-		buf.Myprintf("substr(%v, %v, %v)", val, node.From, node.To)
+		buf.Myprintf("substr(%v from %v for %v)", val, node.From, node.To)
 	}
 }
 
@@ -3426,7 +3482,7 @@ type ConvertUsingExpr struct {
 
 // Format formats the node.
 func (node *ConvertUsingExpr) Format(buf *TrackedBuffer) {
-	buf.Myprintf("convert(%v using %s)", node.Expr, node.Type)
+	buf.Myprintf("convert(%v using %v)", node.Expr, charsetName(node.Type))
 }
 
 func (node *ConvertUsingExpr) walkSubtree(visit Visit) error {
@@ -3458,7 +3514,7 @@ type ConvertTypeSimple struct {
 
 // Format formats the node.
 func (node *ConvertTypeSimple) Format(buf *TrackedBuffer) {
-	buf.Myprintf("%s", node.Name)
+	formatBareWord(buf, node.Name)
 }
 
 func (node *ConvertTypeSimple) walkSubtree(visit Visit) error {
@@ -3688,14 +3744,16 @@ const (
 
 // Format formats the node.
 func (node *Order) Format(buf *TrackedBuffer) {
-	if node, ok := node.Expr.(*NullVal); ok {
-		buf.Myprintf("%v", node)
-		return
-	}
-	if node, ok := node.Expr.(*FuncExpr); ok {
-		if node.Name.Lowered() == "rand" {
+	if node.Direction == AscScr {
+		if node, ok := node.Expr.(*NullVal); ok {
 			buf.Myprintf("%v", node)
 			return
+		}
+		if node, ok := node.Expr.(*FuncExpr); ok {
+			if node.Name.Lowered() == "rand" {
+				buf.Myprintf("%v", node)
+				return
+			}
 		}
 	}
 
